@@ -3,6 +3,7 @@ package props
 // C08 — One SSO request, one outcome; rejected requests leave no trace.
 
 import (
+	"context"
 	"fmt"
 	"strings"
 	"testing"
@@ -54,7 +55,20 @@ func runSSO(c SSOCase) (*ssoRun, error) {
 	if err != nil {
 		return nil, err
 	}
-	rep := obs.Do(w.Handler, hr)
+	var o obs.Opt
+	if c.GoneAtPersist {
+		ctx, cancel := context.WithCancel(context.Background())
+		defer cancel()
+		o.Ctx = ctx
+		w.Store.Before = func(_ context.Context, op string) string {
+			if op == "CreateAuthRequest" {
+				cancel()
+			}
+			return ""
+		}
+		defer func() { w.Store.Before = nil }()
+	}
+	rep := obs.DoOpt(w.Handler, hr, o)
 	r := &ssoRun{W: w, HR: hr, Rep: rep, Now: now, Signed: signed}
 	r.Dec = obs.Decode(rep)
 	host := effHost(c)
@@ -271,8 +285,9 @@ func genC08Case(t *rapid.T) SSOCase {
 		c.Tr.RelayState = bigString(rapid.SampledFrom([]int{1500, 2100, 9000}).Draw(t, "relaylen"), "rs-")
 	}
 	c.PersistFault = rapid.IntRange(0, 5).Draw(t, "persistfault") == 0
+	c.GoneAtPersist = !c.PersistFault && rapid.IntRange(0, 5).Draw(t, "goneatpersist") == 0
 	c.Noise = rapid.IntRange(0, 2).Draw(t, "noise") == 0
-	if rapid.IntRange(0, 4).Draw(t, "history") == 0 {
+	if rapid.IntRange(0, 3).Draw(t, "history") == 0 {
 		c.Hist = genHistory(t, spec, c.SP, func(e *world.SPSpec) {
 			// earlier: other consumer services
 			e.ACS = []world.ACSSpec{acs(world.BindPost, "https://earlier.example/acs/post", "0", A), acs(world.BindRedirect, "https://earlier.example/acs/redirect", "1", A)}
@@ -316,6 +331,21 @@ func c08Oracle(c SSOCase, r *ssoRun) []*ev.Violation {
 		binding := call.Args[1]
 		if binding != world.BindPost && binding != world.BindRedirect {
 			vs = append(vs, ev.V("C08/unanswerable-request-persisted", "request persisted with binding %q, which the IdP cannot answer (reply status %d, %d body bytes)", binding, r.Rep.Status, len(r.Rep.Body)))
+		}
+		// what the documented selection (C16) lands on for the registration in force decides whether the request can be answered
+		if r.Sent != nil && r.Sent.IssuerSP >= 0 {
+			if cur, ok := r.W.Store.SPSpecByEntity(c.Spec.SPs[r.Sent.IssuerSP].EntityID); ok {
+				sel := refSelect(cur, r.Sent.ProtocolBinding)
+				usable := len(sel) == 0
+				for _, e := range sel {
+					if e.Binding == world.BindPost || e.Binding == world.BindRedirect {
+						usable = true
+					}
+				}
+				if !usable {
+					vs = append(vs, ev.V("C08/unanswerable-request-persisted", "request persisted with (%q, %q) although the consumer service the registration selects is %v, which the IdP cannot answer", call.Args[0], binding, sel))
+				}
+			}
 		}
 		sp, _ := r.W.Store.SPSpecByEntity(r.W.Spec.SPs[c.SP].EntityID)
 		want := sp.LoginURL(id)
